@@ -84,6 +84,45 @@ func Sanitize(s string) string {
 	return sb.String()
 }
 
+// canonType replaces the package qualifiers of a corpus type expression (import names or
+// aliases of file 0) by import paths, the way the extractor names parameter terms.
+func (p *Program) canonType(t string) string {
+	if !strings.Contains(t, ".") || t == "context.Context" {
+		return t
+	}
+	names := map[string]string{}
+	for _, im := range p.ExtraImports {
+		f := strings.Fields(im)
+		path := strings.Trim(f[len(f)-1], "\"")
+		name := path[strings.LastIndex(path, "/")+1:]
+		if len(f) == 2 {
+			name = f[0]
+		}
+		names[name] = path
+	}
+	var sb strings.Builder
+	i := 0
+	for i < len(t) {
+		j := i
+		for j < len(t) && (t[j] == '_' || t[j] >= 'a' && t[j] <= 'z' || t[j] >= 'A' && t[j] <= 'Z' || t[j] >= '0' && t[j] <= '9') {
+			j++
+		}
+		if j > i && j < len(t) && t[j] == '.' {
+			if path, ok := names[t[i:j]]; ok {
+				sb.WriteString(path)
+				i = j
+				continue
+			}
+		}
+		if j == i {
+			j = i + 1
+		}
+		sb.WriteString(t[i:j])
+		i = j
+	}
+	return sb.String()
+}
+
 func InTerm(typ string) string {
 	if typ == "context.Context" {
 		return "in_ctx"
@@ -228,7 +267,7 @@ func (p *Program) Evaluate(d Decl) *Ref {
 					r.Params = append(r.Params, t)
 				}
 			}
-			return InTerm(t)
+			return InTerm(p.canonType(t))
 		}
 		if s.prov >= 0 {
 			return evalP(s.prov)[s.result]
